@@ -309,7 +309,7 @@ INDEPENDENT = {
     "fingerprints": set(),
     "gating": set(ALL_PIDS) - {"C16"},
     "layouts": set(ALL_PIDS) - {"C03", "C07", "C09"},
-    "u2fprog": set(ALL_PIDS) - {"C08", "C10"},
+    "u2fprog": set(ALL_PIDS) - {"C08", "C10", "C18"},      # C18: where the control-byte table is applied (to P1 alone)
     "strhelpers": {"C07", "C08", "C09", "C10", "C11", "C17", "C18", "C19"},
     "arbtree": set(ALL_PIDS) - {"C19"},
 }
@@ -366,6 +366,10 @@ def hard_errors(pid, rel, baseline):
     cannot be read from the source (say, a lookup through a hash of the string), sampling inputs says nothing
     about the sparse accepted set, so the property is no longer shown to hold and the check says so."""
     out = [(a, m) for a, m in rel if a == "cfgspace"]      # code under a `cfg` no check here can build (targets, ...)
+    if pid in ("C14", "C01"):
+        # likewise the predicate that decides which list entries are kept ("public-key" x known algorithms): a tag /
+        # hash comparison accepts a sparse set of other type strings that no sampling finds
+        out += [(a, m) for a, m in rel if "recognising predicate" in m]
     if pid != "C18":
         return out
     for aspect, msg in rel:
@@ -405,11 +409,15 @@ def cases_c11(ctx, boost):
     payloads = ["-", "a201010201", "a2010102", "ff", "a0", rng.randbytes(8).hex(), rng.randbytes(40).hex()]
     if ctx.tier == "thorough":
         payloads += [rng.randbytes(n).hex() for n in (1, 2, 3, 5, 17, 64, 300)]
-    big = {n: rng.randbytes(n).hex() for n in (7607, 7608, 7609, 9000)}
+    big = {n: rng.randbytes(n).hex() for n in (7607, 7608, 7609, 9000, 65534, 65535, 65536, 70000)}
+    # deeply nested (but well-formed) payloads behind parameter-less commands: nothing there is to be looked at
+    for depth in (16, 300, 2000, 7600):
+        big[f"nest{depth}"] = (b"\x81" * depth + b"\x00").hex()
+        big[f"mapnest{depth}"] = (b"\xa1\x00" * depth + b"\x00").hex()
     for cfg in ctx.cfgs(("000",)):
         for b in (0x04, 0x07, 0x08, 0x0B, 0x09, 0x0D, 0x40, 0x42, 0x7F, 0x00, 0x03, 0x80, 0xFF):
             for n, hxp in big.items():
-                out.append(Case("req", cfg, f"req {cfg} {b:02x}{hxp}", tag=f"byte + {n} payload bytes"))
+                out.append(Case("req", cfg, f"req {cfg} {b:02x}{hxp}", tag=f"byte + {n} payload bytes", expect_no_panic=True))
         for b in range(256):
             out.append(Case("op", cfg, f"op {b}", tag="try_from/into"))
             out.append(Case("vop", cfg, f"vop {b}", tag="vendor try_from"))
@@ -441,6 +449,9 @@ def str_variants(rng, s):
         out.add(s[:i] + s[i + 1:])
         out.add(s[:i] + ("X" if s[i] != "X" else "Y") + s[i + 1:])
         out.add(s[:i] + s[i].swapcase() + s[i + 1:])
+    for d in casegen.DICT_STRINGS:      # a format character / boundary scalar / source literal in front or behind
+        out.add(d + s)
+        out.add(s + d)
     out.discard(s)
     return sorted(out)
 
@@ -481,6 +492,14 @@ def cases_c18(ctx, boost):
     for b in range(256):
         out.append(Case("cb", "000", f"cb {b}", tag="control byte"))
         out.append(Case("cpp", "000", f"cpp {b}", tag="cred protect"))
+    # the control-byte table as the U2F parser applies it: to P1 alone, whatever P2 is
+    auth = bytearray(b"\x11" * 65 + b"\x22" * 9); auth[64] = 9
+    for p1 in range(256):
+        for p2 in (0, 1, 2, 3, 4, 5, 7, 8, 0x0b, 0x10, 0x80, 0xff):
+            if p1 > 16 and p2 not in (0, 1, 0xff) and p1 % 16:
+                continue
+            ap = bytes([0, 2, p1, p2, len(auth)]) + bytes(auth)
+            out.append(Case("apdu", "000", f"apdu view {ap.hex()}", tag="control byte in an authenticate APDU (P1 x P2)"))
     return out
 
 
@@ -488,7 +507,9 @@ def cases_c18(ctx, boost):
 HARNESS_CAPS = sorted(set(list(range(1, 41)) + [48, 62, 63, 64, 65, 66, 100, 126, 127, 128, 129, 130, 200, 254, 255, 256,
                                                 257, 258, 300, 400, 510, 511, 512, 513, 514, 700, 1022, 1023, 1024, 1025,
                                                 1026, 1500, 2046, 2047, 2048, 2049, 2050, 3070, 3071, 3072, 3073, 3074,
-                                                4094, 4095, 4096, 4097, 4098, 4400, 7609, 8192]))
+                                                4094, 4095, 4096, 4097, 4098, 4400, 7609, 8192,
+                                                65534, 65535, 65536, 65537, 65600, 70000, 131072]))
+HUGE_CAPS = [65534, 65535, 65536, 65537, 65600, 70000, 131072]
 
 
 _DEFVALS = {}
@@ -523,6 +544,11 @@ def resp_values(g, variant, key, n, ctx=None):
         v = g.rand_val(t, p_opt=g.rng.choice([0.0, 0.3, 0.7, 1.0]))
         if g.val_buildable(t, v):
             vals.append(v)
+    # the largest value of the kind: every member present, every bounded member at its capacity (sums of lengths)
+    for _ in range(2):
+        v = extreme_val(g, t, g.rand_val(t, p_opt=1.0), True)
+        if g.val_buildable(t, v):
+            vals.append(v)
     return vals
 
 
@@ -534,7 +560,7 @@ def cases_c17(ctx, boost):
         sj = ctx.data["schemas"][cfg]
         for variant, payload in sj["variants"]["response_variants"]:
             if payload is None:
-                for cap in (1, 2, 3, 64, 7609):
+                for cap in (1, 2, 3, 64, 7609) + tuple(HUGE_CAPS):
                     for prior in ("-", "ee" * min(cap, 5), "ee" * cap, "7fa0"[:2 * min(cap, 2)], ("00a0a0" if cap >= 3 else "a0")):
                         out.append(Case("resp", cfg, f"resp {cfg} {variant} - {cap} {prior}", tag="empty kind"))
                 continue
@@ -548,6 +574,8 @@ def cases_c17(ctx, boost):
                 size = 1 + len(body)
                 caps = {1, 2, 3, 64, 256, 1024, 3072, 7609}
                 caps |= {c for c in HARNESS_CAPS if size - 2 <= c <= size + 2}
+                if v is vals[0] or v is vals[-1]:
+                    caps |= set(HUGE_CAPS)
                 for cap in sorted(caps):
                     priors = ["-", ("ee" * (cap // 2)) or "-", "ee" * cap] if cap <= 300 else ["-", "ee" * cap]
                     if cap >= 2:
@@ -574,7 +602,18 @@ def extreme_val(g, t, v, full=True):
             xs = [xs[i % len(xs)] for i in range(r["vec"])]
         return ('l', xs if full else [])
     if "fields" in r and v[0] == 'r':
-        return ('r', [extreme_val(g, f["ty"], x, full) if f["mode"]["m"] not in ("trunc", "skipLong") else x for f, x in zip(r["fields"], v[1])])
+        slots = []
+        for f, x in zip(r["fields"], v[1]):
+            if f["mode"]["m"] in ("trunc", "skipLong"):
+                slots.append(x if x is None or x[0] != 's' else ('s', b"m" * (f["mode"]["cap"] if full else 0)))
+            else:
+                slots.append(extreme_val(g, f["ty"], x, full))
+        return ('r', slots)
+    if "untagged" in r and v[0] == 'v':
+        # the alternative with the most in it
+        i = len(r["untagged"]) - 1 if full else 0
+        inner = g.rand_val(r["untagged"][i]["ty"], p_opt=1.0)
+        return ('v', i, extreme_val(g, r["untagged"][i]["ty"], inner, full))
     return v
 
 
@@ -619,8 +658,8 @@ def cases_c07(ctx, boost):
         idlens = list(range(0, 701)) if ctx.tier == "thorough" else \
             sorted(set(list(range(0, 40, 7)) + list(range(536, 546)) + list(range(600, 640)) + [255, 256, 300, 676, 700]))
         for pklen in (0, 77, 256, 257, 300, 600):
-            for aal in (0, 16, 17):
-                for n in idlens:
+            for aal in (0, 16, 17, 600, 637, 638, 639, 676, 700, 2000):
+                for n in (idlens if aal <= 17 else [0, 1, 16, 40]):
                     if ctx.tier == "quick" and (aal != 16) and n % 5:
                         continue
                     acd = f"{('cc' * aal) or '-'}:{n}:{rng.randrange(256)}:{('a5' * pklen) or '-'}"
@@ -702,6 +741,13 @@ def cases_c08(ctx, boost):
     # malformed framing
     for _ in range(100):
         out.append(Case("apdu", "000", f"apdu view {rng.randbytes(rng.randrange(0, 12)).hex() or '-'}", tag="raw bytes"))
+    # P2 is ignored: every P2 with every small P1 (and every P1 with a few P2) on an authenticate and a register APDU
+    authd = bytearray(b"\x33" * 65 + b"\x44" * 5); authd[64] = 5
+    for p1 in range(256):
+        for p2 in (range(256) if p1 < 16 else (0, 1, 3, 7, 8, 0xff)):
+            out.append(Case("apdu", "000", f"apdu view {(bytes([0, 2, p1, p2, len(authd)]) + bytes(authd)).hex()}", tag="P1 x P2 authenticate"))
+            if p1 < 16 and p2 % 16 == 0:
+                out.append(Case("apdu", "000", f"apdu view {(bytes([0, 1, p1, p2, 64]) + bytes(64)).hex()}", tag="P1 x P2 register"))
     return out
 
 
@@ -715,6 +761,8 @@ def cases_c09(ctx, boost):
 
     def add(resp, total, tag):
         caps = {0, 1, 2, 64, 1500, 7609} | {c for c in HARNESS_CAPS + [0] if total - 3 <= c <= total + 3}
+        if tag in ("register cert", "version") or rng.random() < 0.05:
+            caps |= set(HUGE_CAPS)
         for cap in sorted(caps):
             for prior in ([b"", rng.randbytes(min(cap, 3)), rng.randbytes(cap // 2)] if cap <= 300 else [b"", rng.randbytes(5)]):
                 if len(prior) > cap:
@@ -799,6 +847,24 @@ def cases_c10(ctx, boost):
                 fails = ["-"] + [f"{m}:{c}" for c in codes] + [f"{o}:{rng.choice(codes)}" for o in allm if o != m][:4]
                 for f in fails:
                     out.append(Case("call2", cfg, f"call2 {entry} {lb} {hx} {f}", tag=variant))
+    # an authenticator that overrides the provided dispatch method is reached through the generic entry point
+    for variant, m, hx in reqs[:12]:
+        out.append(Case("rpcov", cfg, f"rpcov 2 {hx}", tag="Rpc::call reaches an overridden call_ctap2"))
+    # what the handler returns comes back unchanged: rich handler results (every optional member set / random subsets)
+    rkinds = {"MakeCredential": "MakeCredential", "GetAssertion": "GetAssertion", "GetNextAssertion": "GetAssertion", "GetInfo": "GetInfo",
+              "ClientPin": "ClientPin", "CredentialManagement": "CredentialManagement", "LargeBlobs": "LargeBlobs"}
+    rpay = dict((v, p_) for v, p_ in ctx.data["schemas"][cfg]["variants"]["response_variants"])
+    for variant, m, hx in reqs:
+        rk = rkinds.get(variant)
+        if not rk or not rpay.get(rk):
+            continue
+        tr = {"named": rpay[rk]}
+        vals_r = [g.rand_val(tr, p_opt=1.0)] + [g.rand_val(tr, p_opt=rng.choice([0.3, 0.7])) for _ in range(2)]
+        for v_r in vals_r:
+            if not g.val_buildable(tr, v_r):
+                continue
+            for entry in ("direct", "rpc"):
+                out.append(Case("call2", cfg, f"call2 {entry} lb {hx} - {rk}={show(v_r)}", tag=f"{variant} handler result returned unchanged"))
     for b in range(0x40, 0x80):
         for entry in ("direct", "rpc"):
             for f in ("-", f"vendor:{rng.choice(codes)}"):
@@ -810,6 +876,7 @@ def cases_c10(ctx, boost):
     auths = [build_apdu(0, 2, p1, 0, bytes(auth), None, False).hex() for p1 in (3, 7, 8)]
     ver = build_apdu(0, 3, 0, 0, b"", None, False).hex()
     for apdu in [reg] + auths + [ver]:
+        out.append(Case("rpcov", cfg, f"rpcov 1 {apdu}", tag="Rpc::call reaches an overridden call_ctap1"))
         for entry in ("direct", "rpc"):
             for f in ["-", "version"] + [f"{m}:{k}" for m in ("register", "authenticate") for k in list(range(12)) + [rng.randrange(256) for _ in range(6)]]:
                 out.append(Case("call1", cfg, f"call1 {entry} {apdu} {f}", tag="ctap1"))
@@ -869,6 +936,11 @@ def cases_c14(ctx, boost):
         for combo in itertools.product(fmts, repeat=n):
             b = chead(4, n) + b"".join(ctext(f) for f in combo)
             out.append(Case("dec", cfg, f"dec {cfg} {akey} {b.hex()}", f"dec {cfg} {refs[akey]} {b.hex()}", tag=f"formats len {n}"))
+    for k in range(0, 48):      # unknown format names with a multi-byte character straddling every offset
+        nm = "a" * k + ("é", "語", "😀")[k % 3] * 8
+        for lst in ([nm], ["packed", nm, "none"]):
+            b = chead(4, len(lst)) + b"".join(ctext(x) for x in lst)
+            out.append(Case("dec", cfg, f"dec {cfg} {akey} {b.hex()}", f"dec {cfg} {refs[akey]} {b.hex()}", tag="formats multi-byte unknown"))
     for n in (6, 10, 30):
         b = chead(4, n) + b"".join(ctext(rng.choice(fmts + ["Packed", "", "x" * 40])) for _ in range(n))
         out.append(Case("dec", cfg, f"dec {cfg} {akey} {b.hex()}", f"dec {cfg} {refs[akey]} {b.hex()}", tag="formats long"))
@@ -927,6 +999,14 @@ def cases_c13(ctx, boost):
                     add(k_, b_, "dictionary fragment at the cut")
             for s_ in (d + "a" * 10, d + "é" * 70, "a" * (128 - len(db)) + d, d + "a" * 26 + "😀" * 30):
                 add(ukey, user(icon=s_), "dictionary fragment in icon")
+        # one multi-byte character straddling every byte offset of an over-long / fitting icon and name (a preview of the
+        # text sliced bytewise — in a log line, say — would split it)
+        for k in range(0, 132):
+            ch = ("é", "語", "😀")[k % 3]
+            add(ukey, user(icon="a" * k + ch + "a" * (140 - k)), "icon, character straddling offset")
+            if k < 70:
+                add(ukey, user(name="a" * k + ch + "a" * (80 - k)), "name, character straddling offset")
+                add(rkey, rp(name="a" * k + ch + "a" * 3), "short name, character at offset")
         # every character-width pattern around the 64-byte cut, for every alignment
         plen = 4 if ctx.tier == "quick" else 6
         for pat in itertools.product((1, 2, 3, 4), repeat=plen):
@@ -960,8 +1040,9 @@ def cases_c13(ctx, boost):
         # inside full requests
         mc = [k for k in refs if k.endswith("make_credential::Request")]
         if mc:
-            for s in ("a" * 61 + "😀" + "b", "a" * 62 + "€€", "x" * 300):
-                ents = [(chead(0, 1), cbytes(b"h" * 32)), (chead(0, 2), rp(name=s, icon="i" * 200)),
+            # (also names / icons of several kilobytes up to beyond 2^16 bytes: any length is cut, never refused)
+            for s in ("a" * 61 + "😀" + "b", "a" * 62 + "€€", "x" * 300, "a" * 63 + "é" * 4000, "n" * 66000, "é" * 35000):
+                ents = [(chead(0, 1), cbytes(b"h" * 32)), (chead(0, 2), rp(name=s, icon="i" * 200 if len(s) < 1000 else "i" * 70000)),
                         (chead(0, 3), user(name=s, display=s, icon="j" * 129)),
                         (chead(0, 4), chead(4, 1) + chead(5, 2) + ctext("alg") + bytes([0x26]) + ctext("type") + ctext("public-key"))]
                 b = chead(5, 4) + b"".join(k + v for k, v in ents)
@@ -1002,6 +1083,25 @@ def cases_c15(ctx, boost):
                     # never-serialised members (rp icon) are not re-emitted: leave them unset
                     slots = [None if r["fields"][i]["ser"] == "never" else s_ for i, s_ in enumerate(slots)]
                     vals.append(('r', slots))
+                # text members exactly at / next to their capacity, beginning or ending with a fragment the code might treat
+                # specially (source literals, format characters, boundary scalars): they must come back unchanged too
+                for i, f in enumerate(r["fields"]):
+                    fr = g.s.res(f["ty"])
+                    capt = f["mode"].get("cap") if f["mode"]["m"] in ("trunc", "skipLong") else (fr.get("cap") if fr.get("leaf") == "str" else None)
+                    if capt is None or f["rust"] not in r["rust"]["pub_fields"] or f["ser"] == "never" or fr.get("leaf") not in ("str", "icon"):
+                        continue
+                    for d in casegen.DICT_STRINGS:
+                        db = d.encode()
+                        if not db or len(db) > capt:
+                            continue
+                        for L in (capt, capt - 1, len(db) + 1):
+                            if L < len(db):
+                                continue
+                            for txt in (b"a" * (L - len(db)) + db, db + b"a" * (L - len(db))):
+                                slots = list(base[1])
+                                slots = [None if r["fields"][j]["ser"] == "never" else s_ for j, s_ in enumerate(slots)]
+                                slots[i] = ('s', txt)
+                                vals.append(('r', slots))
             else:
                 vals = [g.rand_val(t, 0.5) for _ in range(6 * boost)]
             for v in vals:
@@ -1020,7 +1120,7 @@ def cases_c15(ctx, boost):
 CMD_BYTE = {"MakeCredential": [1], "GetAssertion": [2], "ClientPin": [6], "CredentialManagement": [0x0A, 0x41], "LargeBlobs": [0x0C]}
 
 
-def request_messages(g, variant, key, n_random, subsets=True):
+def request_messages(g, variant, key, n_random, subsets=True, huge=True):
     """(tag, bytes-without-command-byte) for well-formed parameter maps of one command"""
     rng = g.rng
     t = {"named": key}
@@ -1048,7 +1148,8 @@ def request_messages(g, variant, key, n_random, subsets=True):
             slots = list(base[1])
             slots[i] = ('x', bytes([0x5a]) * L)
             return casegen.enc_item(g.value_item(t, ('r', slots)))
-        for total in (7608, 7609, 7610, 8000):
+        # ... and around 2^16 bytes (a `usize` length narrowed to `u16` somewhere would show there)
+        for total in (7608, 7609, 7610, 8000) + ((65535, 65536, 65537, 70000) if huge else ()):
             L = max(0, total - 1 - len(build(0)))
             for _ in range(4):
                 d = total - 1 - len(build(L))
@@ -1206,6 +1307,18 @@ def cases_c12(ctx, boost):
                         done += 1
                         for cb in CMD_BYTE.get(variant, [])[:1]:
                             out.append(Case("req", cfg, f"req {cfg} {cb:02x}{casegen.enc_item(it).hex()}", tag=f"{variant} {tag}"))
+                        if len(path) >= 2 and "filtered" in g.s.res(type_at(g, t, path[:-2])):
+                            # the same limit in an entry whose *other* members make it one that is dropped anyway
+                            def other_unknown(old):
+                                if old[0] != 'map':
+                                    return old
+                                return ('map', [(k, (('neg', 256) if v[0] in ('u', 'neg') else ('text', b"other")) if k != sitekey else v) for k, v in old[1]])
+                            hostf = g.s.res(type_at(g, t, path[:-1]))["fields"][path[-1]]
+                            sitekey = ('text', hostf["key"].encode())
+                            it2 = item_at(g, t, it, path[:-1], other_unknown)
+                            if it2 is not None and it2 != it:
+                                for cb in CMD_BYTE.get(variant, [])[:1]:
+                                    out.append(Case("req", cfg, f"req {cfg} {cb:02x}{casegen.enc_item(it2).hex()}", tag=f"{variant} {tag} (in an entry that is dropped anyway)"))
                         if sat != base:
                             # the same limit in the LAST entry of a list whose kept part is already full
                             it = item_at(g, t, sat, path, lambda _old, new=new: new, last=True)
@@ -1331,6 +1444,29 @@ def cases_c06(ctx, boost):
                             c = Case("req", cfg, f"req {cfg} {cb:02x}{casegen.enc_item_ext(it).hex()}", tag=f"{variant} foreign member {name} at {'/'.join(map(str, hp))}")
                             c.same_as = plain
                             out.append(c)
+                    # long unknown names with a multi-byte character straddling every byte offset up to 70 (a name shortened
+                    # bytewise for a message would split it), and hundreds of unknown members in one map (counters)
+                    for k in range(0, 70):
+                        nm = ("a" * k + rng.choice(["é", "語", "😀"]) * 12).encode()
+
+                        def insn(old, nm=nm):
+                            ents = list(old[1])
+                            ents.insert(rng.randint(0, len(ents)), (('text', nm), g.rand_unknown_item(1)))
+                            return ('map', ents)
+                        it = item_at(g, t, base, hp, insn)
+                        c = Case("req", cfg, f"req {cfg} {cb:02x}{casegen.enc_item_ext(it).hex()}", tag=f"{variant} long multi-byte unknown name at {'/'.join(map(str, hp))}")
+                        c.same_as = plain
+                        out.append(c)
+                    for count in (255, 256, 257, 300, 700):
+                        def insm(old, count=count):
+                            ents = list(old[1])
+                            extra = [(('text', f"x{j:03d}".encode()), casegen.TRUE if j % 2 else ('u', j)) for j in range(count)]
+                            pos = rng.randint(0, len(ents))
+                            return ('map', ents[:pos] + extra + ents[pos:])
+                        it = item_at(g, t, base, hp, insm)
+                        c = Case("req", cfg, f"req {cfg} {cb:02x}{casegen.enc_item_ext(it).hex()}", tag=f"{variant} {count} unknown members at {'/'.join(map(str, hp))}")
+                        c.same_as = plain
+                        out.append(c)
                     # several unknown members at once; and the same in the LAST entry of a list whose kept part is full
                     sat = saturate(g, t, base)
                     plain_sat = Case("req", cfg, f"req {cfg} {cb:02x}{casegen.enc_item_ext(sat).hex()}", tag=f"{variant} plain (saturated lists)")
@@ -1487,6 +1623,31 @@ def cases_c05(ctx, boost):
                     out.append(Case("req", cfg, f"req {cfg} {cb:02x}{m.hex()}", tag=f"{variant} {tag}: {nm}"))
                 for b in (0x00, 0x03, 0x05, 0x0d, 0x3f, 0x80, 0xff):
                     out.append(Case("req", cfg, f"req {cfg} {b:02x}{body.hex()}", tag=f"unassigned command byte, {tag}"))
+    # very long parameter / format lists with the fault in the last entry (a bound on how many entries are examined)
+    from pymodel import head as chead, ctext, cint
+    for cfg in ctx.cfgs(("000", "111")):
+        rng = ctx.gen(cfg, salt=9).rng
+
+        def ent(alg, ty):
+            return chead(5, 2) + ctext("alg") + cint(alg) + ctext("type") + ctext(ty)
+        faults = [("alg missing", chead(5, 1) + ctext("type") + ctext("public-key")),
+                  ("type missing", chead(5, 1) + ctext("alg") + cint(-7)),
+                  ("alg is text", chead(5, 2) + ctext("alg") + ctext("x") + ctext("type") + ctext("public-key")),
+                  ("key duplicated", chead(5, 3) + ctext("alg") + cint(-7) + ctext("type") + ctext("public-key") + ctext("alg") + cint(-7)),
+                  ("non-minimal alg", chead(5, 2) + ctext("alg") + bytes([0x38, 0x06]) + ctext("type") + ctext("public-key")),
+                  ("alg out of range", ent(2 ** 31, "public-key")), ("type over capacity", ent(-257, "p" * 33)),
+                  ("entry is an integer", bytes([0x00])), ("well-formed", ent(-8, "public-key"))]
+        for n in (300, 640, 1000):
+            body_pre = b"".join(ent(rng.choice([-7, -8, -257, -35]), rng.choice(["public-key", "public-key", "other"])) for _ in range(n))
+            for nm, bad in faults:
+                lst = chead(4, n + 1) + body_pre + bad
+                mc = bytes([1]) + chead(5, 4) + bytes([1]) + chead(2, 32) + bytes(32) + bytes([2]) + chead(5, 1) + ctext("id") + ctext("example.org") + \
+                    bytes([3]) + chead(5, 1) + ctext("id") + chead(2, 1) + b"u" + bytes([4]) + lst
+                out.append(Case("req", cfg, f"req {cfg} {mc.hex()}", tag=f"MakeCredential, {n} parameters then: {nm}"))
+            for nm, bad in (("integer", bytes([0x05])), ("byte string", chead(2, 4) + b"none"), ("invalid UTF-8", chead(3, 2) + b"\xc3\x28"), ("well-formed", ctext("tpm"))):
+                fl = chead(4, n + 1) + b"".join(ctext(rng.choice(["packed", "none", "tpm", "x" * 40])) for _ in range(n)) + bad
+                ga = bytes([2]) + chead(5, 3) + bytes([1]) + ctext("example.org") + bytes([2]) + chead(2, 32) + bytes(32) + bytes([9]) + fl
+                out.append(Case("req", cfg, f"req {cfg} {ga.hex()}", tag=f"GetAssertion, {n} formats then: {nm}"))
     # each bounded member pushed across its limit (shared with C12)
     for c in cases_c12(ctx, boost):
         c.tag = "limit: " + c.tag
@@ -1529,10 +1690,15 @@ def cases_c03(ctx, boost):
         for variant, payload in sj["variants"]["response_variants"]:
             if payload is None:
                 continue
-            for v in resp_values(g, variant, payload, 6 * boost, ctx):
+            for vi, v in enumerate(resp_values(g, variant, payload, 6 * boost, ctx)):
                 c = Case("resp", cfg, f"resp {cfg} {variant} {show(v)} 8192 -", tag="whole response")
                 c.check_canon = "resp"
                 out.append(c)
+                if vi < 2:      # the same into buffers beyond 16-bit lengths: still exactly one item, nothing behind it
+                    for cap in HUGE_CAPS:
+                        c = Case("resp", cfg, f"resp {cfg} {variant} {show(v)} {cap} {rng.choice(['-', '7f'])}", tag="whole response, huge buffer")
+                        c.check_canon = "resp"
+                        out.append(c)
         gi = [k for k in sj["types"] if k.endswith("get_info::Response")][0]
         base = g.s.min_value({"named": gi})
         names = [f["rust"] for f in g.s.res({"named": gi})["fields"]]
@@ -1576,9 +1742,18 @@ def cases_c02(ctx, boost):
         rng = g.rng
         sj = ctx.data["schemas"][cfg]
         for variant, payload in sj["variants"]["response_variants"]:
+            if payload:
+                for _ in range(2):      # the largest value of the kind
+                    ve = extreme_val(g, {"named": payload}, g.rand_val({"named": payload}, p_opt=1.0), True)
+                    if g.val_buildable({"named": payload}, ve):
+                        for cap in (8192, 7609, 4096):
+                            out.append(Case("resp", cfg, f"resp {cfg} {variant} {show(ve)} {cap} -", tag=f"{variant} every member at capacity"))
             if payload is None:
                 out.append(Case("resp", cfg, f"resp {cfg} {variant} - 64 -", tag="parameter-less"))
                 # a reused buffer: whatever the previous exchange left in it (an error status, a whole response)
+                for cap in HUGE_CAPS:
+                    out.append(Case("resp", cfg, f"resp {cfg} {variant} - {cap} -", tag="parameter-less, huge buffer"))
+                    out.append(Case("resp", cfg, f"resp {cfg} {variant} - {cap} 7f00ff", tag="parameter-less, huge reused buffer"))
                 for prior in ("7f", "2e", "01", "00", "ff" * 64, "39a0", "00a10102", "a07f" * 4):
                     for cap in (64, 8192):
                         out.append(Case("resp", cfg, f"resp {cfg} {variant} - {cap} {prior}", tag="parameter-less, reused buffer"))
@@ -1606,6 +1781,9 @@ def cases_c02(ctx, boost):
                     v = ('r', slots)
                     if g.val_buildable(t, v):
                         out.append(Case("resp", cfg, f"resp {cfg} {variant} {show(v)} 8192 -", tag=f"{variant} subset"))
+                        if attempt == 0 and (len(sub) <= 1 or len(sub) == len(optional)):
+                            for cap in HUGE_CAPS:       # capacities beyond 16-bit lengths
+                                out.append(Case("resp", cfg, f"resp {cfg} {variant} {show(v)} {cap} {rng.choice(['-', '7f', '00a0'])}", tag=f"{variant} huge buffer"))
                         if attempt == 0 and len(sub) <= 1:
                             # the buffer's previous content (a reused buffer) does not matter
                             for prior in ('a07f' * 4, "7f", "2e", "ff" * 40):
@@ -1705,6 +1883,8 @@ def cases_c16(ctx, boost):
                     vals.append(('r', [full[1][j] if j == i else mn[1][j] for j in range(len(mn[1]))]))
             for _ in range(12 * boost):
                 vals.append(ga.rand_val(ta, p_opt=rng.choice([0.3, 0.7, 1.0])))
+            for _ in range(2):      # every member present and at its capacity
+                vals.append(extreme_val(ga, ta, ga.rand_val(ta, p_opt=1.0), True))
             for v in vals:
                 if not ga.val_buildable(ta, v):
                     continue
@@ -1834,9 +2014,15 @@ def cases_c04(ctx, boost):
             if not payload or payload == "vendor":
                 continue
             per = []
-            for tag, body in request_messages(g, variant, payload, 3 * boost, subsets=False):
+            for tag, body in request_messages(g, variant, payload, 3 * boost, subsets=False, huge=False):
                 for cb in CMD_BYTE.get(variant, [])[:1]:
                     per.append((variant, bytes([cb]) + body))
+            if cfg in ("000", "111"):
+                for tag, body in request_messages(g, variant, payload, 0, subsets=False):
+                    if len(body) > 60000:
+                        for cb in CMD_BYTE.get(variant, [])[:1]:
+                            for m_ in (bytes([cb]) + body, bytes([cb]) + body[:-1], bytes([0x04]) + body, bytes([0x3f]) + body):
+                                out.append(np(Case("req", cfg, f"req {cfg} {m_.hex()}", tag=f"{variant} {tag}")))
             full = g.rand_val({"named": payload}, p_opt=1.0)
             for cb in CMD_BYTE.get(variant, [])[:1]:
                 per.append((variant, bytes([cb]) + casegen.enc_item(g.wire_item({"named": payload}, full, lossy=0.0))))
@@ -1918,6 +2104,10 @@ def cases_c04(ctx, boost):
     # ---- the two lossy list readers at and beyond their capacity (shared with C14)
     for c in cases_c14(ctx, boost):
         out.append(np(c))
+    # ---- names and icons around their cut (every character width, boundary scalars, special fragments; shared with C13):
+    #      the scan for a character boundary ends in `unwrap_unchecked`
+    for c in cases_c13(ctx, boost):
+        out.append(np(c))
     # ---- every public type through cbor_deserialize::<T>: values and random mutations
     for cfg in ctx.cfgs(("000", "111")):
         for c in wire_cases(ctx, cfg, 2 * boost, kinds=("dec", "extra", "mut"), salt=404):
@@ -1969,6 +2159,17 @@ def arb_inputs(rng, tier, boost):
                         for _ in range(rng.randrange(0, 12)))
         out.append(("length word + multi-byte text", word(n) + body + tail))
         out.append(("bool + length word + text", bytes([rng.randrange(256)]) + word(n) + body + tail))
+    # inputs longer than one CTAP message and longer than 2^16 bytes: long texts of every character width at every alignment
+    # (a character straddles any fixed byte offset for one of the prefixes), long byte runs, length words beyond the message size
+    for total in (7700, 9000, 20000, 70000):
+        for ch in scal[2:]:
+            for pre in range(len(ch)):
+                out.append(("long multi-byte text", b"a" * pre + ch * (total // len(ch))))
+                out.append(("length word + long multi-byte text", word(total) + b"a" * pre + ch * (total // len(ch)) + bytes(16)))
+        out.append(("long zero run", bytes(total)))
+        out.append(("long 0x01 run", b"\x01" * total))
+        for tail in (b"\x1e\x14", b"\xff\xff", b"\x00\x00\x1e\x14", b"\x14\x1e\x00\x00", b"\x03" * 8):
+            out.append(("long run with slice lengths at the end", b"\x01" * 64 + rng.randbytes(total) + tail * 6))
     # the length window ends inside a character, and what follows is NOT that character's continuation
     for n in list(range(1, 34)) + [63, 64, 65, 127, 128, 129, 200, 255]:
         for ch in scal[2:]:
@@ -2003,7 +2204,8 @@ def cases_c19(ctx, boost):
         for ty in ARB_WHOLE:
             # steer the derived enums to every variant: the selector is the first u32 (little endian)
             out.append(np(Case("arb", "000", f"arb {ty} {hx}", tag=f"{ty}: {tag}", feats=feats)))
-            if tag in ("length word + multi-byte text", "structured draws", "random"):
+            if tag in ("length word + multi-byte text", "structured draws", "random", "long multi-byte text", "length word + long multi-byte text",
+                       "long run with slice lengths at the end", "long 0x01 run"):
                 nvar = {"ctap2::Request": 11, "ctap1::Request": 3, "authenticator::Request": 2}[ty]
                 v = rng.randrange(nvar)
                 sel = ((v * 2 ** 32 + nvar - 1) // nvar).to_bytes(4, "little")
@@ -2026,6 +2228,15 @@ def cases_c19(ctx, boost):
                 if (k + fi) % 3 == 0:
                     out.append(np(Case("arb", "000", f"arb authenticator::Request ffffffff{body.hex()}",
                                        tag="authenticator::Request: variant-steered, members then long multi-byte text", feats=feats)))
+    # ... and the same with texts longer than a CTAP message / than 2^16 bytes
+    for v in range(11):
+        sel = ((v * 2 ** 32 + 10) // 11).to_bytes(4, "little")
+        for k in list(range(0, 24)) + [32, 40, 64]:
+            for fill in (bytes(max(k - 1, 0)) + b"\x01" * min(k, 1), b"\x01" * k):
+                ch = rng.choice(["é", "語", "😀"]).encode()
+                total = rng.choice([7700, 9000, 70000])
+                body = sel + fill + b"a" * rng.randrange(len(ch)) + ch * (total // len(ch))
+                out.append(np(Case("arb", "000", f"arb ctap2::Request {body.hex()}", tag="ctap2::Request: variant-steered, members then very long multi-byte text", feats=feats)))
     if ctx.tier == "thorough":
         for cfg in ("111",):
             for tag, b in inputs[::3]:
